@@ -6,6 +6,7 @@
 import CedarProps.C06
 import CedarProps.C07
 import CedarProofs.HandshakeLemmas
+import CedarProofs.Keyed
 
 namespace Cedar.C03
 open Cedar Cedar.HS
@@ -228,5 +229,74 @@ theorem server_resume_required_auth (c : Cache) (now : Nat) (sid : Str) (want : 
     (h : serverResume c now sid want nonce true = (c', reply, some o)) : o.authenticated = true := by
   obtain ⟨_, _, _, _, _, _, _, _, _, hr⟩ := C06.resume_needs_key c now sid want nonce true c' reply o h
   exact hr rfl
+
+/-! ### "all later traffic is AES-GCM protected", on the Stream model
+
+`client_required_enc` / `server_required_enc` conclude `o.streamKey.isSome`, a field of the handshake
+model. The bridge: `streamKey = some k` is the key `setupStreamEncryption` hands to
+`SetSymmetricKey` (`Stream.setKey`), and a stream so keyed, driven by ANY history of application
+operations that contains no explicit `SetCryptoMode(false)`, emits only `.ct` frames sealed under `k`
+and accepts only seals under `k` (`Cedar.run_protected`, CedarProofs/Keyed.lean; the exact wire
+form of each frame is `C12.wire_format`, the nonces `C12.nonce_sequence`). -/
+
+/-- **keyed_traffic_protected** (the bridge): whatever state `s` the stream was in during the
+    cleartext handshake and whatever fresh IV `SetSymmetricKey` drew, after `setKey k iv` every
+    history without a crypto-off toggle is `ProtectedBy k`: every frame put on the wire is a
+    non-empty `.ct` whose seal is under `k` (opaque to any stream not holding `k`), and every frame
+    accepted by any receive API is a seal under `k` (raw bytes and seals under other keys are
+    errors). -/
+theorem keyed_traffic_protected (s : Stream) (k : Nat) (iv : IV) (hist : List Op)
+    (hon : ∀ op ∈ hist, op.keepsCrypto = true) :
+    ProtectedBy ((s.setKey k iv).run hist).1 ((s.setKey k iv).run hist).2 k :=
+  run_protected _ k (setKey_keyed s k iv) hist hon
+
+/-- **client_required_traffic_protected**: a client whose policy marks encryption or integrity
+    REQUIRED and whose handshake succeeded — against ANY server script — has a session key `k`, and
+    all its later traffic on that stream is AES-GCM protected under `k` in the sense above. -/
+theorem client_required_traffic_protected (cfg : ClientCfg) (srv : ServerScript) (o : Outcome)
+    (h : clientFull cfg srv = .ok o) (hreq : cfg.enc = lvlRequired ∨ cfg.integ = lvlRequired)
+    (s : Stream) (iv : IV) (hist : List Op) (hon : ∀ op ∈ hist, op.keepsCrypto = true) :
+    ∃ k, o.streamKey = some k ∧ o.reportedEnc = true ∧
+      ProtectedBy ((s.setKey k iv).run hist).1 ((s.setKey k iv).run hist).2 k := by
+  have hk := client_required_enc cfg srv o h hreq
+  have hre := client_reported_enc_is_real cfg srv o h
+  cases hs : o.streamKey with
+  | none => simp [hs] at hk
+  | some k => exact ⟨k, rfl, by rw [hre, hs]; rfl, keyed_traffic_protected s k iv hist hon⟩
+
+/-- **server_required_traffic_protected**: the same for a server, against any client script; also
+    when encryption was merely DECIDED by the negotiation (`decided_enc_is_keyed`). -/
+theorem server_required_traffic_protected (cfg : ServerCfg) (cli : ClientScript) (sid : String) (o : Outcome) (adv : Decision)
+    (h : serverFull cfg cli sid = .ok o adv)
+    (hreq : cfg.enc = lvlRequired ∨ cfg.integ = lvlRequired ∨ adv.encryption = true)
+    (s : Stream) (iv : IV) (hist : List Op) (hon : ∀ op ∈ hist, op.keepsCrypto = true) :
+    ∃ k, o.streamKey = some k ∧ o.reportedEnc = true ∧
+      ProtectedBy ((s.setKey k iv).run hist).1 ((s.setKey k iv).run hist).2 k := by
+  have hk : o.streamKey.isSome = true := by
+    rcases hreq with h1 | h1 | h1
+    · exact server_required_enc cfg cli sid o adv h (.inl h1)
+    · exact server_required_enc cfg cli sid o adv h (.inr h1)
+    · exact decided_enc_is_keyed cfg cli sid o adv h h1
+  have hre := (server_reported_is_real cfg cli sid o adv h).1
+  cases hs : o.streamKey with
+  | none => simp [hs] at hk
+  | some k => exact ⟨k, rfl, by rw [hre, hs]; rfl, keyed_traffic_protected s k iv hist hon⟩
+
+/-- **reported_enc_traffic_protected**: more generally, whenever either machine REPORTS encryption,
+    the stream is keyed and later traffic is protected (the reported flag is not decoration). -/
+theorem reported_enc_traffic_protected (o : Outcome)
+    (hreal : o.reportedEnc = o.streamKey.isSome) (hrep : o.reportedEnc = true)
+    (s : Stream) (iv : IV) (hist : List Op) (hon : ∀ op ∈ hist, op.keepsCrypto = true) :
+    ∃ k, o.streamKey = some k ∧ ProtectedBy ((s.setKey k iv).run hist).1 ((s.setKey k iv).run hist).2 k := by
+  cases hs : o.streamKey with
+  | none => rw [hs] at hreal; rw [hreal] at hrep; cases hrep
+  | some k => exact ⟨k, rfl, keyed_traffic_protected s k iv hist hon⟩
+
+/-! Non-vacuity: the strict client against the honest server gets key `sharedKey 1 2`; a history
+    with sends, a secret and a junk frame received emits two `.ct` frames under that key. -/
+example : ∃ o, clientFull strictClient honestSrv = .ok o ∧ o.streamKey = some (sharedKey 1 2) := ⟨_, rfl, by decide⟩
+example : ((({} : Stream).setKey (sharedKey 1 2) ⟨4, []⟩).run
+    [.send [1] 1, .recv ⟨1, 1, .raw [0]⟩, .secret [2]]).2.all
+      (fun f => match f.body with | .ct _ c => c.key == sharedKey 1 2 | .raw _ => false) = true := by decide
 
 end Cedar.C03
